@@ -364,6 +364,21 @@ def st_Raise(eng, s, st):
     return outs
 
 
+def handler_names(h):
+    if h.type is None:
+        return ["BaseException"]
+    names = []
+    t = h.type
+    for x in t.elts if isinstance(t, ast.Tuple) else [t]:
+        if isinstance(x, ast.Name):
+            names.append(x.id)
+        elif isinstance(x, ast.Attribute):
+            names.append(x.attr)
+        else:
+            raise Unsupported(f"except {ast.unparse(t)}")
+    return names
+
+
 def handler_matches(eng, st, h, exc):
     if h.type is None:
         return True
@@ -383,23 +398,36 @@ def st_Try(eng, s, st):
     outs = []
     for s1, o in run(eng, s.body, st):
         if o.kind == "raise":
+            remaining = o.val.classes()
             for h in s.handlers:
-                if handler_matches(eng, s1, h, o.val):
-                    s2 = s1.clone()
-                    s2.exc_stack.append(o.val)
-                    s2.path.append(f"except {ast.unparse(h.type) if h.type else 'bare'}")
+                names = handler_names(h)
+                caught = frozenset(c for c in remaining if any(exc_isinstance(c, n) for n in names))
+                if not caught:
+                    continue
+                remaining = remaining - caught
+                ex = o.val if caught == o.val.classes() else o.val.narrow(caught)
+                s2 = s1.clone()
+                s2.ghost["exc_classes"] = {**s2.ghost.get("exc_classes", {}), ex.id: caught}
+                s2.exc_stack.append(ex)
+                s2.path.append(f"except {ast.unparse(h.type) if h.type else 'bare'}" + ("" if caught == o.val.classes() else f"[{','.join(sorted(caught))}]"))
+                if h.name:
+                    s2.env[h.name] = ex
+                for s3, o3 in run(eng, h.body, s2):
+                    s3 = s3.clone()
+                    if s3.exc_stack and s3.exc_stack[-1] is ex:
+                        s3.exc_stack.pop()
                     if h.name:
-                        s2.env[h.name] = o.val
-                    for s3, o3 in run(eng, h.body, s2):
-                        s3 = s3.clone()
-                        if s3.exc_stack and s3.exc_stack[-1] is o.val:
-                            s3.exc_stack.pop()
-                        if h.name:
-                            s3.env.pop(h.name, None)
-                        outs.append((s3, o3))
+                        s3.env.pop(h.name, None)
+                    outs.append((s3, o3))
+                if not remaining:
                     break
-            else:
-                outs.append((s1, o))
+            if remaining:
+                if remaining == o.val.classes():
+                    outs.append((s1, o))
+                else:
+                    s4 = s1.clone()
+                    s4.ghost["exc_classes"] = {**s4.ghost.get("exc_classes", {}), o.val.id: remaining}
+                    outs.append((s4, Outcome("raise", o.val.narrow(remaining))))
         elif o.kind == "normal" and s.orelse:
             outs.extend(run(eng, s.orelse, s1))
         else:
